@@ -201,12 +201,25 @@ std::array<int8_t, N * 4> bytes_to_symbols(const std::array<T, N>& bytes)
     return result;
 }
 
+/**
+ * The RRC filter shared by every instantiation of symbols_to_baseband<N>.
+ * A function-local static inside the template would give each frame length
+ * its own filter, and the EOT block would not continue the last frame.
+ */
+mobilinkd::BaseFirFilter<double, std::tuple_size<decltype(rrc_taps)>::value>& baseband_filter()
+{
+    using namespace mobilinkd;
+
+    static BaseFirFilter<double, std::tuple_size<decltype(rrc_taps)>::value> rrc = makeFirFilter(rrc_taps);
+    return rrc;
+}
+
 template <size_t N>
 std::array<int16_t, N*10> symbols_to_baseband(std::array<int8_t, N> symbols)
 {
     using namespace mobilinkd;
 
-    static BaseFirFilter<double, std::tuple_size<decltype(rrc_taps)>::value> rrc = makeFirFilter(rrc_taps);
+    auto& rrc = baseband_filter();
 
     std::array<int16_t, N*10> baseband;
     baseband.fill(0);
